@@ -20,7 +20,8 @@ CXX_LIB = ["yaep.cpp", "hashtab.cpp", "objstack.cpp", "vlobject.cpp"]
 
 IRFLAGS = ["-O0", "-Xclang", "-disable-O0-optnone", "-gline-tables-only", "-emit-llvm", "-c", "-DNDEBUG", "-D" + GUARD, "-w"]
 NATFLAGS = ["-O1", "-g", "-fsanitize=address,undefined", "-fno-sanitize-recover=undefined", "-fno-omit-frame-pointer", "-DNDEBUG", "-D" + GUARD, "-w",
-            "-Dmalloc=sx_malloc", "-Dcalloc=sx_calloc", "-Drealloc=sx_realloc", "-Dfree=sx_free"]
+]
+WRAP = ["-Wl,--wrap=malloc,--wrap=calloc,--wrap=realloc,--wrap=free,--wrap=_Znwm,--wrap=_Znam,--wrap=_ZdlPv,--wrap=_ZdaPv,--wrap=_ZdlPvm"]
 MEMFAULTS = {"OUT-OF-BOUNDS", "USE-AFTER-FREE", "DOUBLE-FREE", "BAD-FREE", "NULLDEREF", "WILD-POINTER", "ALLOC-DEALLOC-MISMATCH", "WRITE-TO-CONST", "STACK-OVERFLOW", "BAD-LONGJMP"}
 UBFAULTS = {"SIGNED-OVERFLOW", "DIV-BY-ZERO", "SHIFT-TOO-WIDE"}
 EXITFAULTS = {"ABORT", "EXIT", "ASSERT-FAIL", "UNREACHABLE"}
@@ -69,7 +70,7 @@ class Builder:
             tasks.append((["gcc"] + NATFLAGS + self.extra + self.inc + ["-c", os.path.join(REPO, "src", f), "-o", os.path.join(W, f + ".o")], None))
             self.libobj.append(os.path.join(W, f + ".o"))
         tasks.append((["clang-14"] + IRFLAGS + self.inc + [os.path.join(VERIF, "vm", "models.c"), "-o", os.path.join(W, "models.bc")], None))
-        tasks.append((["gcc"] + [x for x in NATFLAGS if not x.startswith("-Dmalloc") and not x.startswith("-Dcalloc") and not x.startswith("-Drealloc") and not x.startswith("-Dfree")] + self.inc + ["-c", os.path.join(VERIF, "harness", "sx_native.c"), "-o", os.path.join(W, "sx_native.o")], None))
+        tasks.append((["gcc"] + NATFLAGS + self.inc + ["-c", os.path.join(VERIF, "harness", "sx_native.c"), "-o", os.path.join(W, "sx_native.o")], None))
         if self.cxx:
             self.cxxbc = []
             self.cxxobj = []
@@ -81,23 +82,28 @@ class Builder:
         with ThreadPoolExecutor(NCPU) as ex:
             list(ex.map(lambda t: must(t[0]), tasks))
 
-    def harness(self, src, defs=(), lib="c"):
+    def harness(self, src, defs=(), lib="c", extra_src=()):
         """returns (ir path, native binary path) for harness source file `src` (relative to harness/)."""
-        key = (src, tuple(defs), lib)
+        key = (src, tuple(defs), lib, tuple(extra_src))
         if key in self.built:
             return self.built[key]
         W = self.W
         tag = hashlib.md5(repr(key).encode()).hexdigest()[:8]
         base = os.path.join(W, os.path.basename(src).replace(".", "_") + "_" + tag)
-        path = os.path.join(VERIF, "harness", src)
-        iscxx = src.endswith(".cpp")
-        cc, ncc = ("clang++-14", "g++") if iscxx else ("clang-14", "gcc")
-        xf = ["-fno-exceptions"] if iscxx else []
         dl = ["-D" + d for d in defs]
-        t1 = [cc] + IRFLAGS + xf + self.extra + dl + self.inc + [path, "-o", base + ".bc"]
-        t2 = [ncc] + NATFLAGS + xf + self.extra + dl + self.inc + ["-c", path, "-o", base + ".o"]
-        with ThreadPoolExecutor(2) as ex:
-            list(ex.map(must, [t1, t2]))
+        bcs, objs, tasks, anycxx = [], [], [], False
+        for n, sname in enumerate((src,) + tuple(extra_src)):
+            path = os.path.join(VERIF, "harness", sname)
+            iscxx = sname.endswith(".cpp")
+            anycxx |= iscxx
+            cc, ncc = ("clang++-14", "g++") if iscxx else ("clang-14", "gcc")
+            xf = ["-fno-exceptions"] if iscxx else []
+            tasks.append([cc] + IRFLAGS + xf + self.extra + dl + self.inc + [path, "-o", "%s.%d.bc" % (base, n)])
+            tasks.append([ncc] + NATFLAGS + xf + self.extra + dl + self.inc + ["-c", path, "-o", "%s.%d.o" % (base, n)])
+            bcs.append("%s.%d.bc" % (base, n))
+            objs.append("%s.%d.o" % (base, n))
+        with ThreadPoolExecutor(4) as ex:
+            list(ex.map(must, tasks))
         libbc = {"c": self.libbc, "none": [], "containers": [b for b in self.libbc if "yaep.c" not in b]}.get(lib)
         libobj = {"c": self.libobj, "none": [], "containers": [o for o in self.libobj if "yaep.c" not in o]}.get(lib)
         if lib == "cxx":
@@ -106,11 +112,38 @@ class Builder:
         if lib == "cxxcontainers":
             libbc = [b for b in self.cxxbc if "yaep.cpp" not in b] + [b for b in self.libbc if "allocate" in b]
             libobj = [o for o in self.cxxobj if "yaep.cpp" not in o] + [o for o in self.libobj if "allocate" in o]
-        must(["llvm-link-14", base + ".bc", os.path.join(W, "models.bc")] + libbc + ["-o", base + ".all.bc"])
+        if lib == "both":
+            # libyaep and libyaep++ in one module: the C++ translation unit of the parser re-defines the unmangled
+            # globals of yaep.c (bison tables, counters); they are made local to that unit, class members stay visible
+            ybc, yobj = self.both_cxx()
+            libbc = self.libbc + [ybc] + [b for b in self.cxxbc if "yaep.cpp" not in b]
+            libobj = self.libobj + [yobj] + [o for o in self.cxxobj if "yaep.cpp" not in o]
+        must(["llvm-link-14"] + bcs + [os.path.join(W, "models.bc")] + libbc + ["-o", base + ".all.bc"])
         must(["opt-14", "-passes=mem2reg,sroa,early-cse,simplifycfg", base + ".all.bc", "-o", base + ".opt.bc"])
-        must([("g++" if (iscxx or lib.startswith("cxx")) else "gcc"), "-fsanitize=address,undefined", base + ".o", os.path.join(W, "sx_native.o")] + libobj + ["-o", base + ".native"])
+        must([("g++" if (anycxx or lib.startswith("cxx") or lib == "both") else "gcc"), "-fsanitize=address,undefined"] + WRAP + objs + [os.path.join(W, "sx_native.o")] + libobj + ["-o", base + ".native"])
         self.built[key] = (base + ".opt.bc", base + ".native")
         return self.built[key]
+
+    def both_cxx(self):
+        if hasattr(self, "_both"):
+            return self._both
+        W = self.W
+        ybc = [b for b in self.cxxbc if "yaep.cpp" in b][0]
+        yobj = [o for o in self.cxxobj if "yaep.cpp" in o][0]
+        r = must(["llvm-nm-14", "--defined-only", "--extern-only", ybc])
+        syms = [l.split()[-1] for l in r.stdout.splitlines() if l.strip()]
+        keep = [s for s in syms if s.startswith("_Z")]
+        local = [s for s in syms if not s.startswith("_Z")]
+        out_bc = os.path.join(W, "yaep_cpp_internal.bc")
+        must(["opt-14", "-passes=internalize", "-internalize-public-api-list=" + ",".join(keep), ybc, "-o", out_bc])
+        out_o = os.path.join(W, "yaep_cpp_internal.o")
+        lf = os.path.join(W, "localize.txt")
+        r2 = must(["nm", "--defined-only", "--extern-only", yobj])
+        local = [l.split()[-1] for l in r2.stdout.splitlines() if l.strip() and not l.split()[-1].startswith("_Z")]
+        open(lf, "w").write("\n".join(local) + "\n")
+        must(["objcopy", "--localize-symbols=" + lf, yobj, out_o])
+        self._both = (out_bc, out_o)
+        return self._both
 
 
 def params_str(p):
@@ -260,9 +293,9 @@ class Check:
         """jobs: list of dict(harness=src, defs=(), lib='c', params={}, ...)."""
         W = self.W
         # build harnesses (sequentially per distinct harness; each build is internally parallel)
-        hkeys = sorted(set((j["harness"], tuple(j.get("defs", ())), j.get("lib", "c")) for j in jobs + witness_jobs))
+        hkeys = sorted(set((j["harness"], tuple(j.get("defs", ())), j.get("lib", "c"), tuple(j.get("extra_src", ()))) for j in jobs + witness_jobs))
         with ThreadPoolExecutor(min(len(hkeys), 8) or 1) as ex:
-            built = dict(zip(hkeys, ex.map(lambda k: builder.harness(k[0], k[1], k[2]), hkeys)))
+            built = dict(zip(hkeys, ex.map(lambda k: builder.harness(k[0], k[1], k[2], k[3]), hkeys)))
         dumpdir = None
         if crosscheck:
             dumpdir = os.path.join(W, "q")
@@ -271,7 +304,7 @@ class Check:
 
         def one(ix):
             j, wit = alljobs[ix]
-            ir, nat = built[(j["harness"], tuple(j.get("defs", ())), j.get("lib", "c"))]
+            ir, nat = built[(j["harness"], tuple(j.get("defs", ())), j.get("lib", "c"), tuple(j.get("extra_src", ())))]
             return run_vm(ir, j, os.path.join(W, "job%d.json" % ix), self.tier, self.seed, dumpdir)
         # longest jobs first when a weight is given
         order = sorted(range(len(alljobs)), key=lambda i: -alljobs[i][0].get("weight", 1))
@@ -338,7 +371,7 @@ class Check:
 
         def replay(t):
             ix, j, v, nth = t
-            ir, nat = built[(j["harness"], tuple(j.get("defs", ())), j.get("lib", "c"))]
+            ir, nat = built[(j["harness"], tuple(j.get("defs", ())), j.get("lib", "c"), tuple(j.get("extra_src", ())))]
             return native_run(nat, j["params"], v["inputs"], W)
         with ThreadPoolExecutor(NCPU) as ex:
             nats = list(ex.map(replay, rt))
@@ -364,7 +397,7 @@ class Check:
         # native validation of explored paths: identical observable traces
         def validate(t):
             ix, j, smp = t
-            ir, nat = built[(j["harness"], tuple(j.get("defs", ())), j.get("lib", "c"))]
+            ir, nat = built[(j["harness"], tuple(j.get("defs", ())), j.get("lib", "c"), tuple(j.get("extra_src", ())))]
             return native_run(nat, j["params"], smp["inputs"], W)
         with ThreadPoolExecutor(NCPU) as ex:
             vres = list(ex.map(validate, to_validate))
